@@ -100,6 +100,13 @@ def _key_chain(ctx, rep, ci, it):
             continue
         k = g.args[1]
         c = norm(g)[:70]
+        # `(lambda x: None) if key is None else key`: the constant key only stands in for a missing key
+        if isinstance(k, ast.IfExp):
+            t = norm(k.test)
+            lam, other = (k.body, k.orelse) if t.endswith(' is None') else ((k.orelse, k.body) if t.endswith(' is not None') else (None, None))
+            if lam is not None and isinstance(lam, ast.Lambda) and norm(lam.body) == 'None' and isinstance(other, ast.Name) \
+                    and t.split(' is ')[0] == other.id:
+                k = other
         if isinstance(k, ast.Lambda) and norm(k.body) == 'None':
             rep.held('R9.2', it, c, 'key-less aggregate: one group', g)
             continue
@@ -248,11 +255,25 @@ def _groupselect(ctx, rep):
             continue
         c = calls[0]
         inner = c.args[0] if c.args else None
+        # a local bound once to the value-sorted view
+        if isinstance(inner, ast.Name):
+            binds = [n.value for n in own_nodes(fn.node) if isinstance(n, ast.Assign) and len(n.targets) == 1 and
+                     norm(n.targets[0]) == inner.id]
+            if len(binds) == 1:
+                inner = binds[0]
         ok_inner = isinstance(inner, ast.Call) and norm(inner.func) == 'sort' and len(inner.args) >= 2 and \
             norm(inner.args[0]) == 'table' and norm(inner.args[1]) == 'value' and \
             any(k.arg == 'reverse' and norm(k.value) == rev for k in inner.keywords)
         ok_key = len(c.args) >= 2 and norm(c.args[1]) == 'key'
         pres = [k for k in c.keywords if k.arg == 'presorted']
+        from .c11 import _local_dict
+        for k in c.keywords:
+            if k.arg is None and isinstance(k.value, ast.Name):
+                d = _local_dict(fn, k.value.id)
+                if d is None:
+                    pres.append(k)           # an opaque spread may carry presorted
+                elif 'presorted' in d:
+                    pres.append(ast.keyword(arg='presorted', value=d['presorted']))
         ok_pres = not pres or (isinstance(pres[0].value, ast.Constant) and pres[0].value.value is False)
         if ok_inner and ok_key and ok_pres:
             rep.held('R9.5', fn, norm(c)[:70], 'value sort (reverse=%s), then key sort, then first per group' % rev, c)
@@ -273,22 +294,36 @@ def _mergedup_guard(ctx, rep):
     enough (a Record returns None, not `missing`, for an absent cell)."""
     rep.rule('R9.8', 'mergeduplicates reads row[i] only under a length guard (absent cells are neither values nor conflicts)')
     fn = ctx.project.need_fn('petl.transform.reductions:itermergeduplicates')
+    from ..absint import parent_map
+    from .c12 import _len_guarded
+    pm = parent_map(fn.node)
+    # the group variable(s) of `for k, grp in rowgroupby(...)` and the row variables that range over them
+    gvars = set()
+    for x in own_nodes(fn.node):
+        if isinstance(x, ast.For) and isinstance(x.target, ast.Tuple) and len(x.target.elts) == 2 and \
+                isinstance(x.target.elts[1], ast.Name) and 'rowgroupby' in norm(x.iter):
+            gvars.add(x.target.elts[1].id)
+    rowvars = set()
+    for x in own_nodes(fn.node):
+        its = []
+        if isinstance(x, ast.For):
+            its = [(x.target, x.iter)]
+        elif isinstance(x, (ast.GeneratorExp, ast.ListComp, ast.SetComp, ast.DictComp)):
+            its = [(g.target, g.iter) for g in x.generators]
+        for t, i in its:
+            if isinstance(t, ast.Name) and isinstance(i, ast.Name) and i.id in gvars:
+                rowvars.add(t.id)
     n = 0
-    for c in [x for x in own_nodes(fn.node) if isinstance(x, (ast.GeneratorExp, ast.ListComp, ast.SetComp))]:
-        if any(isinstance(x, (ast.GeneratorExp, ast.ListComp, ast.SetComp)) for x in ast.walk(c.elt)):
-            continue      # judged on the innermost comprehension
-        subs = [x for x in ast.walk(c.elt) if isinstance(x, ast.Subscript) and norm(x.value) == 'row']
-        if not subs:
-            continue
-        n += 1
-        guards = [norm(i) for g in c.generators for i in g.ifs]
-        ok = any('len(row)' in g for g in guards)
-        if ok:
-            rep.held('R9.8', fn, norm(c)[:70], 'guarded by a length test', c)
-        else:
-            rep.violated('R9.8', fn, norm(c)[:70],
-                         'cells are read from the rows of a group without testing the row length: for a short row a Record '
-                         'yields None, which is merged as a value (phantom None / spurious Conflict) whenever `missing` is not None', c)
+    for x in own_nodes(fn.node):
+        if isinstance(x, ast.Subscript) and isinstance(x.value, ast.Name) and x.value.id in rowvars and \
+                not isinstance(x.slice, ast.Slice) and isinstance(x.ctx, ast.Load):
+            n += 1
+            if _len_guarded(pm, x, fn.node):
+                rep.held('R9.8', fn, norm(x), 'guarded by a length test of that row', x)
+            else:
+                rep.violated('R9.8', fn, norm(x),
+                             'cells are read from the rows of a group without testing the row length: for a short row a Record '
+                             'yields None, which is merged as a value (phantom None / spurious Conflict) whenever `missing` is not None', x)
     if n == 0:
         raise AnalysisError('anchor vanished: value collection in itermergeduplicates')
 
@@ -356,48 +391,84 @@ def _contains_pick(stmts, pick, skip):
     return False
 
 
-def _shapes(stmts, val, pick, skip, free):
-    """set of shape expressions (AST) the ladder reaches under the valuation; tests that are not in `val` and do
-    not look at the key are explored both ways (`free` collects them)"""
+def _tv(t, val, defs, depth=0):
+    """three-valued truth of a test under the valuation of the header atoms: True / False / None (not determined)"""
+    k = norm(t)
+    if k in val:
+        return val[k]
+    if isinstance(t, ast.Name) and t.id in defs and depth < 3:
+        return _tv(defs[t.id], val, defs, depth + 1)
+    if isinstance(t, ast.UnaryOp) and isinstance(t.op, ast.Not):
+        v = _tv(t.operand, val, defs, depth)
+        return None if v is None else (not v)
+    if isinstance(t, ast.Compare) and len(t.ops) == 1 and isinstance(t.ops[0], (ast.IsNot, ast.NotEq)):
+        pos = ast.Compare(left=t.left, ops=[ast.Is() if isinstance(t.ops[0], ast.IsNot) else ast.Eq()], comparators=t.comparators)
+        v = _tv(pos, val, defs, depth)
+        return None if v is None else (not v)
+    if isinstance(t, ast.BoolOp):
+        vs = [_tv(v, val, defs, depth) for v in t.values]
+        if isinstance(t.op, ast.And):
+            if any(v is False for v in vs):
+                return False
+            return True if all(v is True for v in vs) else None
+        if any(v is True for v in vs):
+            return True
+        return False if all(v is False for v in vs) else None
+    return None
+
+
+def _shapes(stmts, val, pick, skip, free, defs=None):
+    """set of shape expressions (AST) the ladder reaches under the valuation; tests that the valuation does not
+    determine are explored both ways (`free` collects them)"""
+    defs = defs or {}
     out = []
     for s in stmts:
         if isinstance(s, ast.If):
             if not _contains_pick([s], pick, skip):
                 continue
-            truth = True
-            unknown = None
-            for a in _conj(s.test):
-                t = norm(a)
-                if t in val:
-                    if not val[t]:
-                        truth = False
-                        break
-                else:
-                    unknown = a
-                    break
-            if unknown is not None:
-                raise_names = {x.id for x in ast.walk(unknown) if isinstance(x, ast.Name)}
-                free.append((unknown, raise_names))
-                out += _shapes(s.body, val, pick, skip, free)
-                out += _shapes(s.orelse, val, pick, skip, free)
+            truth = _tv(s.test, val, defs)
+            if truth is None:
+                names = set()
+                for x in ast.walk(s.test):
+                    if isinstance(x, ast.Name):
+                        names.add(x.id)
+                        if x.id in defs:
+                            names |= {y.id for y in ast.walk(defs[x.id]) if isinstance(y, ast.Name)}
+                free.append((s.test, names))
+                out += _shapes(s.body, val, pick, skip, free, defs)
+                out += _shapes(s.orelse, val, pick, skip, free, defs)
                 return out
-            res = _shapes(s.body if truth else s.orelse, val, pick, skip, free)
+            res = _shapes(s.body if truth else s.orelse, val, pick, skip, free, defs)
             if res:
                 return out + res
         elif isinstance(s, (ast.For, ast.While, ast.With)):
-            res = _shapes(s.body, val, pick, skip, free)
+            res = _shapes(s.body, val, pick, skip, free, defs)
             if res:
                 return out + res
         elif isinstance(s, ast.Try):
-            res = _shapes(s.body, val, pick, skip, free)
+            res = _shapes(s.body, val, pick, skip, free, defs)
             if res:
                 return out + res
         elif pick is not None and isinstance(s, ast.Assign) and len(s.targets) == 1 and norm(s.targets[0]) == pick:
-            return out + [s.value]
+            return out + _resolve_ifexp(s.value, val, defs, free)
         elif pick is None and isinstance(s, ast.Expr) and isinstance(s.value, ast.Yield) and s.value.value is not None \
                 and id(s.value) not in skip:
-            return out + [s.value.value]
+            return out + _resolve_ifexp(s.value.value, val, defs, free)
     return out
+
+
+def _resolve_ifexp(e, val, defs, free):
+    if isinstance(e, ast.IfExp):
+        t = _tv(e.test, val, defs)
+        if t is None:
+            names = {x.id for x in ast.walk(e.test) if isinstance(x, ast.Name)}
+            for x in list(names):
+                if x in defs:
+                    names |= {y.id for y in ast.walk(defs[x]) if isinstance(y, ast.Name)}
+            free.append((e.test, names))
+            return _resolve_ifexp(e.body, val, defs, free) + _resolve_ifexp(e.orelse, val, defs, free)
+        return _resolve_ifexp(e.body if t else e.orelse, val, defs, free)
+    return [e]
 
 
 def _key_width(e, keynames):
@@ -449,12 +520,34 @@ def r911(ctx, rep):
         if not atoms:
             raise AnalysisError('anchor vanished: header ladder of %s' % fq)
         keynames = {'key'} | gvars
+        counts = {}
+        for x in own_nodes(fn.node):
+            if isinstance(x, ast.Assign) and len(x.targets) == 1 and isinstance(x.targets[0], ast.Name):
+                counts.setdefault(x.targets[0].id, []).append(x.value)
+        defs = {k2: v[0] for k2, v in counts.items() if len(v) == 1 and k2 not in keynames and
+                isinstance(v[0], (ast.Call, ast.Compare, ast.BoolOp, ast.UnaryOp)) and
+                {y.id for y in ast.walk(v[0]) if isinstance(y, ast.Name)} <= {'key', 'isinstance', 'callable', 'list', 'tuple',
+                                                                              'string_types', 'len'}}
+        # the atoms of the header ladder in positive form (`key is not None` counts as `key is None`)
+        patoms = []
+        for a0 in atoms:
+            t0 = ast.parse(a0, mode='eval').body
+            if isinstance(t0, ast.Name) and t0.id in defs:
+                a0 = norm(defs[t0.id])
+                t0 = defs[t0.id]
+            if isinstance(t0, ast.Compare) and len(t0.ops) == 1 and isinstance(t0.ops[0], ast.IsNot):
+                a0 = norm(ast.Compare(left=t0.left, ops=[ast.Is()], comparators=t0.comparators))
+            if isinstance(t0, ast.UnaryOp) and isinstance(t0.op, ast.Not):
+                a0 = norm(t0.operand)
+            if a0 not in patoms:
+                patoms.append(a0)
+        atoms = patoms
         for combo in [()] + [(a,) for a in atoms]:
             val = {a: (a in combo) for a in atoms}
             label = combo[0] if combo else 'otherwise (single field)'
             free_h, free_r = [], []
-            hs = _shapes(body, val, hpick, set(), free_h)
-            rs = _shapes(body, val, rpick, hdr_yield, free_r)
+            hs = _shapes(body, val, hpick, set(), free_h, defs)
+            rs = _shapes(body, val, rpick, hdr_yield, free_r, defs)
             n += 1
             bad_tests = [a for a, names in free_r if names & gvars]
             spec_tests = [a for a, names in free_r if 'key' in names and not (names & gvars)]
